@@ -42,7 +42,7 @@ pub fn prettify<W>(
 where
     W: io::Write,
 {
-    assert!(base_indent.chars().all(char::is_whitespace));
+    assert!(base_indent.chars().all(super::turtle::is_turtle_whitespace));
     write_prefixes(&mut write, &config.prefix_map[..])?;
 
     let mut p = Prettifier::new(&dataset, &mut write, base_indent.into(), config);
